@@ -52,7 +52,7 @@ func init() {
 		Assumptions: []string{
 			"With a level's limit disabled only counts 0..3 backed by input are generated for that level (per the quantifier)",
 			"Arbitrary noise inside coordinate blocks is represented by ones and canonical NaNs (bytes there are only copied)",
-			"Allocation is measured with runtime/metrics /gc/heap/allocs:bytes on a quiescent process; bound 64 KiB + 64*(len(input) + 32*sum(limits))",
+			"Allocation is measured with runtime/metrics /gc/heap/allocs:bytes on a quiescent process; bound 64 KiB + 16*len(input) + 64*sum(limits)",
 		},
 	})
 }
@@ -461,6 +461,20 @@ func heapAllocs() uint64 {
 	return allocSample[0].Value.Uint64()
 }
 
+// allocBound is the allocation budget of one decode: a constant, a multiple of the input length
+// (coordinates are copied once or twice and slices grow by doubling) and a multiple of the
+// configured limits (a count within its limit may be allocated before its data is read:
+// at most 8*4 bytes per level-1 element, 8 per ring or part).
+func allocBound(inputLen int, limits [4]int) uint64 {
+	sum := 0
+	for _, l := range limits {
+		if l > 0 {
+			sum += l
+		}
+	}
+	return uint64(64<<10 + 16*inputLen + 64*sum)
+}
+
 func c04Name(cs c04Case) string {
 	n := "wkb"
 	if cs.Ext {
@@ -494,13 +508,7 @@ func c04Check(c *engine.Ctx, cs c04Case, b []byte, model *ref.G, v verdict, meas
 		return
 	}
 	if measure {
-		sum := 0
-		for _, l := range cs.Limits {
-			if l > 0 {
-				sum += l
-			}
-		}
-		bound := uint64(64<<10 + 64*(len(b)+32*sum))
+		bound := allocBound(len(b), cs.Limits)
 		delta := after - before
 		// The runtime flushes per-P allocation statistics lazily, so a single delta can contain
 		// stale counts from other Ps; an allocation proportional to a forged count reproduces on
@@ -726,6 +734,12 @@ func c04Exec(c *engine.Ctx, cs c04Case) {
 		c04SweepOne(c, cs, b)
 	case "depth":
 		c04Depth(c, cs)
+	case "product":
+		saved := wkbcommon.MaxGeometryElements
+		setLimits(cs.Limits)
+		defer setLimits(saved)
+		b, _ := hex.DecodeString(cs.Hex)
+		c04Product(c, cs, b)
 	}
 }
 
@@ -797,22 +811,7 @@ func c04Run(c *engine.Ctx) {
 		for _, cfg := range configs {
 			setLimits(cfg)
 			if maxF > 3 {
-				// forged-count strings: sequential, allocation measured around each decode
-				for _, f := range formats {
-					cs := c04Case{Mode: "model", Ext: f.Ext, NaN: f.NaN, Limits: cfg, MaxF: maxF}
-					st := engine.Explore(bound, 0, c.Expired, func(m *engine.MC) {
-						b, model, v, forged := c04Generate(m, cs)
-						if !forged || v.n <= int(prevForged(maxF)) {
-							return // already covered by the parallel pass / a smaller family
-						}
-						c.Count("evaluations", 1)
-						cc := cs
-						cc.Choices = m.Choices()
-						c04Check(c, cc, b, model, v, true)
-					})
-					c.Count("schedules", st.Executions)
-				}
-				continue
+				continue // forged-count strings are explored by the worker processes below
 			}
 			// no forged counts: parallel over the first-level subtrees
 			for _, f := range formats {
@@ -835,6 +834,19 @@ func c04Run(c *engine.Ctx) {
 			}
 		}
 	}
+	// (1b) forged counts: allocation is measured around each decode, which needs a quiescent
+	// heap, so this part runs in single-threaded worker PROCESSES (one job = one limit
+	// configuration x decoder mode), stage by stage in ascending magnitude.
+	for _, maxF := range []uint32{1 << 16, 1 << 24, 1<<32 - 1} {
+		if c.ViolTotal() > 0 {
+			c.Warn("violations seen: larger forged counts not explored")
+			break
+		}
+		c04ForgedStage(c, configs, formats, bound, maxF)
+	}
+	// (1c) product family: a count within its (generous) limit multiplied by a backed first
+	// element - the allocation must stay additive in input length and limits
+	c04ProductFamily(c)
 	// (2) role-blind sweep over the corpus encodings under enabled limits
 	corpus := codecCorpus(false)
 	sweepConfigs := [][4]int{{0, 16, 16, 16}, {0, 2, 2, 2}}
@@ -896,6 +908,48 @@ func c04Run(c *engine.Ctx) {
 			})
 		}
 	}
+	// large encodings (arrays beyond 512 / 1024 floats): truncation around every 512-byte boundary,
+	// substitutions in the header, and the intact encoding
+	bigs := bigCorpus(false)
+	for _, cfg := range [][4]int{{0, -1, -1, -1}, {0, 2048, 2048, 2048}} {
+		setLimits(cfg)
+		c.Parallel(len(bigs), func(i int) {
+			g := bigs[i]
+			for _, f := range formats {
+				if !f.Ext && !f.NaN && ref.HasEmptyPoint(g) {
+					continue
+				}
+				for _, xdr := range []bool{false, true} {
+					enc := ref.EncodeWKB(g, xdr, f.Ext)
+					cs := c04Case{Mode: "sweep", Ext: f.Ext, NaN: f.NaN, Limits: cfg}
+					c04SweepOne(c, cs, enc)
+					c.Count("big_encodings", 1)
+					for base := 0; base <= len(enc); base += 512 {
+						for _, d := range []int{-9, -8, -1, 0, 1, 7, 8} {
+							if n := base + d; n >= 0 && n < len(enc) {
+								c04SweepOne(c, cs, enc[:n])
+							}
+						}
+					}
+					for n := len(enc) - 20; n < len(enc); n++ {
+						if n >= 0 {
+							c04SweepOne(c, cs, enc[:n])
+						}
+					}
+					mut := make([]byte, len(enc))
+					for pos := 0; pos < 24 && pos < len(enc); pos++ {
+						for _, v := range []byte{0x00, 0x01, 0xff} {
+							copy(mut, enc)
+							mut[pos] = v
+							if cfg[1] >= 0 || pos < 5 {
+								c04SweepOne(c, cs, mut)
+							}
+						}
+					}
+				}
+			}
+		})
+	}
 	setLimits(saved)
 	// (3) nesting depth family
 	levels := []int{10, 100, 1000, 10000}
@@ -921,6 +975,188 @@ func c04Run(c *engine.Ctx) {
 			c.Warn("vacuous: counter " + k + " is zero")
 		}
 	}
+}
+
+type c04Job struct {
+	Ext, NaN bool
+	Limits   [4]int
+	MaxF     uint32
+	Bound    int
+}
+
+type c04WorkerOut struct {
+	Evaluations int64              `json:"evaluations"`
+	Measured    int64              `json:"measured"`
+	Schedules   int64              `json:"schedules"`
+	Counters    map[string]int64   `json:"counters"`
+	Violations  []engine.Violation `json:"violations"`
+}
+
+// c04ForgedStage runs one magnitude stage on worker processes.
+func c04ForgedStage(c *engine.Ctx, configs [][4]int, formats []c04Case, bound int, maxF uint32) {
+	var jobs []c04Job
+	for _, cfg := range configs {
+		enabled := false
+		for _, l := range cfg[1:] {
+			if l >= 0 {
+				enabled = true
+			}
+		}
+		if !enabled {
+			continue // no limit configured: no forged counts are generated
+		}
+		for _, f := range formats {
+			jobs = append(jobs, c04Job{Ext: f.Ext, NaN: f.NaN, Limits: cfg, MaxF: maxF, Bound: bound})
+		}
+	}
+	nw := c.Workers
+	if nw > len(jobs) {
+		nw = len(jobs)
+	}
+	type res struct {
+		out c04WorkerOut
+		err error
+		log string
+	}
+	results := make([]res, nw)
+	c.Parallel(nw, func(w int) {
+		var mine []c04Job
+		for i := w; i < len(jobs); i += nw {
+			mine = append(mine, jobs[i])
+		}
+		in, _ := json.Marshal(mine)
+		outPath := fmt.Sprintf("/verif/.build/c04w-%d-%d.json", os.Getpid(), w)
+		cmd := exec.Command(os.Args[0], "c04forged", string(in), outPath)
+		var eb bytes.Buffer
+		cmd.Stderr = &eb
+		cmd.Env = append(os.Environ(), "GOMAXPROCS=2")
+		results[w].err = cmd.Run()
+		results[w].log = eb.String()
+		if b, err := os.ReadFile(outPath); err == nil {
+			json.Unmarshal(b, &results[w].out)
+		} else if results[w].err == nil {
+			results[w].err = err
+		}
+		os.Remove(outPath)
+	})
+	for w, r := range results {
+		if r.err != nil {
+			c.Violate(fmt.Sprintf("model/forged/worker-died/maxF%d", maxF), fmt.Sprintf("worker %d decoding forged counts up to %d died: %v: %s", w, maxF, r.err, clipStr(r.log, 1500)), "c04", c04Case{Mode: "model", MaxF: maxF})
+			continue
+		}
+		c.Count("evaluations", r.out.Evaluations)
+		c.Count("allocation_measured", r.out.Measured)
+		c.Count("schedules", r.out.Schedules)
+		for k, v := range r.out.Counters {
+			c.Count(k, v)
+		}
+		for _, v := range r.out.Violations {
+			var cs c04Case
+			json.Unmarshal(v.Case, &cs)
+			c.Violate(v.Key, v.Desc, "c04", cs)
+		}
+	}
+}
+
+// C04ForgedMain is the worker process: sequential exploration of its jobs with allocation measured.
+func C04ForgedMain(jobsJSON, outPath string) {
+	var jobs []c04Job
+	if err := json.Unmarshal([]byte(jobsJSON), &jobs); err != nil {
+		fmt.Fprintln(os.Stderr, err)
+		os.Exit(2)
+	}
+	c := engine.NewCtx("C04", "worker", 0, 40*60*1e9)
+	c.Workers = 1
+	out := c04WorkerOut{Counters: map[string]int64{}}
+	for _, j := range jobs {
+		setLimits(j.Limits)
+		cs := c04Case{Mode: "model", Ext: j.Ext, NaN: j.NaN, Limits: j.Limits, MaxF: j.MaxF}
+		st := engine.Explore(j.Bound, 0, func() bool { return c.ViolTotal() > 50 }, func(m *engine.MC) {
+			b, model, v, forged := c04Generate(m, cs)
+			if !forged || v.n <= int(prevForged(j.MaxF)) {
+				return // covered by the parallel pass or by a smaller stage
+			}
+			out.Evaluations++
+			out.Measured++
+			cc := cs
+			cc.Choices = m.Choices()
+			c04Check(c, cc, b, model, v, true)
+		})
+		out.Schedules += st.Executions
+	}
+	for _, k := range []string{"verdict_too_large", "verdict_error", "verdict_ok"} {
+		out.Counters[k] = c.Get(k)
+	}
+	for _, v := range c.Violations() {
+		out.Violations = append(out.Violations, *v)
+	}
+	b, _ := json.Marshal(out)
+	if err := os.WriteFile(outPath, b, 0o644); err != nil {
+		fmt.Fprintln(os.Stderr, err)
+		os.Exit(2)
+	}
+}
+
+// c04ProductFamily: count L within a generous limit L, first element backed by n points, then
+// truncated. Sequential in this process after a GC (min-of-retries absorbs stale statistics).
+func c04ProductFamily(c *engine.Ctx) {
+	saved := wkbcommon.MaxGeometryElements
+	defer setLimits(saved)
+	for _, L := range []int{64, 4096} {
+		lim := [4]int{0, L, L, L}
+		setLimits(lim)
+		for _, ext := range []bool{false, true} {
+			for _, n := range []int{1, 64, 512} {
+				for _, kind := range []string{"polygon", "multipolygon", "multilinestring", "linestring"} {
+					g := &g04{ext: ext, limits: lim, maxFields: 1 << 30}
+					hdr := func(k ref.Kind) { g.out = append(g.out, 1); g.u32(typeWord04(k, ext), false) }
+					ringOfN := func() {
+						g.u32(uint32(n), false)
+						for i := 0; i < 2*n; i++ {
+							g.f64(float64(i), false)
+						}
+					}
+					switch kind {
+					case "polygon":
+						hdr(ref.Polygon)
+						g.u32(uint32(L), false)
+						ringOfN()
+					case "multipolygon":
+						hdr(ref.MultiPolygon)
+						g.u32(uint32(L), false)
+						hdr(ref.Polygon)
+						g.u32(uint32(L), false)
+						ringOfN()
+					case "multilinestring":
+						hdr(ref.MultiLineString)
+						g.u32(uint32(L), false)
+						hdr(ref.LineString)
+						ringOfN()
+					case "linestring":
+						hdr(ref.LineString)
+						g.u32(uint32(L), false)
+						for i := 0; i < 2*min(n, L-1); i++ {
+							g.f64(float64(i), false)
+						}
+					}
+					cs := c04Case{Mode: "product", Ext: ext, Limits: lim, Hex: hex.EncodeToString(g.out)}
+					c04Product(c, cs, g.out)
+				}
+			}
+		}
+	}
+}
+
+func typeWord04(k ref.Kind, ext bool) uint32 {
+	return map[ref.Kind]uint32{ref.Point: 1, ref.LineString: 2, ref.Polygon: 3, ref.MultiPoint: 4, ref.MultiLineString: 5, ref.MultiPolygon: 6, ref.Collection: 7}[k]
+}
+
+// c04Product: the input is truncated, so the decoder must return an error, having allocated no
+// more than the additive bound.
+func c04Product(c *engine.Ctx, cs c04Case, b []byte) {
+	c.Count("evaluations", 1)
+	c.Count("product_family", 1)
+	c04Check(c, cs, b, nil, verdict{kind: vErr}, true)
 }
 
 func prevForged(maxF uint32) uint32 {
